@@ -26,8 +26,17 @@ def unhx(tok):
     return b"" if tok == "-" else bytes.fromhex(tok)
 
 
-def build(ctx, sub):
-    exe, err = vlib.build_c("drv_codec2_asan", "drv_codec2.c", SOURCES, wraps=["getaddrinfo"], asan=True)
+WARNP_WRAPS = ["getaddrinfo", "syslog", "vsyslog", "__syslog_chk", "__vsyslog_chk", "openlog", "closelog"]
+
+
+def build(ctx, sub, real_warnp=False):
+    """real_warnp: the library's util/warnp.c is linked instead of the driver's silent stand-ins
+    (syslog(3) and friends interposed so that nothing reaches the system log)."""
+    if real_warnp:
+        exe, err = vlib.build_c("drv_codec2_warnp_asan", "drv_codec2.c", SOURCES + ["util/warnp.c"],
+                                cflags=["-DDRV_REAL_WARNP", "-D_DEFAULT_SOURCE"], wraps=WARNP_WRAPS, asan=True)
+    else:
+        exe, err = vlib.build_c("drv_codec2_asan", "drv_codec2.c", SOURCES, wraps=["getaddrinfo"], asan=True)
     if not exe:
         ctx.fail(sub, "build", "", "C driver does not build: " + (err or "")[-1500:])
         return None, None
@@ -49,25 +58,39 @@ def corpus(prefixes):
     return out
 
 
-def run_all(ctx, sub, cases, spec_cases=None, py_spec=None, rule="", describe=None):
-    """impl vs model on every case; impl vs Coq spec where spec_cases[i] is not None;
-    impl vs python oracle where py_spec[i] is not None."""
-    exe, mexe = build(ctx, sub)
-    if not exe:
-        return None
-    impl, st = vlib.run_sharded(exe, cases, env=ASAN_ENV)
+def run_impl(ctx, sub, exe, cases, env=None, label=""):
+    """The implementation on every case; sanitizer reports and crashes become failures.
+    Returns (output lines, [(rc, stderr)])."""
+    e = dict(ASAN_ENV)
+    e.update(env or {})
+    impl, st = vlib.run_sharded(exe, cases, env=e)
     # a crashed / sanitizer-stopped shard shows as <no-output>: its first missing line is the input
     # the implementation died on; record that first so that the replay names a concrete input
     prev = ""
     for c, a in zip(cases, impl):
         if a.startswith("<no-output") and not prev.startswith("<no-output"):
-            msg = next((re.search(r"(ERROR: AddressSanitizer[^\n]*|[^\n]*runtime error:[^\n]*)", e).group(1)
-                        for rc, e in st if re.search(r"ERROR: AddressSanitizer|runtime error:", e)), "no sanitizer text")
-            ctx.fail(sub, "sanitizer", c, "implementation stopped on this input (crash or sanitizer report): " + msg[:200],
+            msg = next((re.search(r"(ERROR: AddressSanitizer[^\n]*|[^\n]*runtime error:[^\n]*)", e_).group(1)
+                        for rc, e_ in st if re.search(r"ERROR: AddressSanitizer|runtime error:", e_)), "no sanitizer text")
+            ctx.fail(sub, "sanitizer", c, (label + " " if label else "") +
+                     "implementation stopped on this input (crash or sanitizer report): " + msg[:200],
                      property_fails=True)
             break
         prev = a
-    vlib.sanitizer_reports(ctx, sub, st)
+    vlib.sanitizer_reports(ctx, sub, st, label)
+    return impl, st
+
+
+def run_all(ctx, sub, cases, spec_cases=None, py_spec=None, rule="", describe=None, real_warnp=False,
+            syslog_verbs=None):
+    """impl vs model on every case; impl vs Coq spec where spec_cases[i] is not None;
+    impl vs python oracle where py_spec[i] is not None.
+    real_warnp: the build with the library's own util/warnp.c (messages to stderr).
+    syslog_verbs: a second pass of the cases with these verbs through the same build after
+    warnp_syslog(1) (VERIF_WARNP_MODE=syslog); same expected results."""
+    exe, mexe = build(ctx, sub, real_warnp)
+    if not exe:
+        return None
+    impl, st = run_impl(ctx, sub, exe, cases, env={"VERIF_WARNP_MODE": "stderr"} if real_warnp else None)
     model, _ = vlib.run_sharded(mexe, cases)
     spec = None
     if spec_cases is not None:
@@ -86,6 +109,23 @@ def run_all(ctx, sub, cases, spec_cases=None, py_spec=None, rule="", describe=No
     vlib.tri_compare(ctx, sub, cases, impl, model, spec, describe=describe)
     ctx.record(sub, cases, set(zip((c.split()[0] for c in cases), impl)), rule,
                samples=[cases[0][:120], cases[len(cases) // 2][:120]])
+    if real_warnp and syslog_verbs:
+        idx = [i for i, c in enumerate(cases) if c.split()[0] in syslog_verbs]
+        sub_cases = [cases[i] for i in idx]
+        impl2, st2 = run_impl(ctx, sub, exe, sub_cases, env={"VERIF_WARNP_MODE": "syslog"}, label="[VERIF_WARNP_MODE=syslog, build drv_codec2_warnp_asan]")
+        vlib.tri_compare(ctx, sub, sub_cases, impl2, [model[i] for i in idx],
+                         [spec[i] for i in idx] if spec is not None else None,
+                         describe=lambda c: "[VERIF_WARNP_MODE=syslog] " + (describe(c) if describe else c))
+        lines = sum(int(m.group(1)) for rc, e_ in st2 for m in [re.search(r"drv_codec2: syslog-lines (\d+)", e_)] if m)
+        stray = sum(int(m.group(1)) for rc, e_ in st for m in [re.search(r"drv_codec2: syslog-lines (\d+)", e_)] if m)
+        ctx.count(sub + ".syslog_lines", lines)
+        if lines == 0 or stray != 0:
+            ctx.fail(sub, "tie", "", "reporting modes not exercised as intended: %d lines reached the interposed syslog in "
+                     "syslog mode, %d in stderr mode" % (lines, stray))
+        ctx.record(sub + "-syslog", sub_cases, set(zip((c.split()[0] for c in sub_cases), impl2)),
+                   "the same cases with the library's util/warnp.c in SYSLOG mode (warnp_syslog(1); syslog/vsyslog "
+                   "interposed): every rejection message is formatted into warnp's fixed-size line buffer",
+                   samples=[sub_cases[0][:120]])
     return impl
 
 
@@ -527,6 +567,70 @@ def gen_deser(ctx, n):
     return out
 
 
+# Rejection messages of util/sock.c that quote untrusted text: (prefix of the address, fill byte,
+# suffix, length of the message text around the quoted part, name).  The quoted part is the whole
+# address for the Unix path; the address up to the last ':' for a stray bracket; the bracket content
+# for a bad literal; the text after the last ':' for a bad port.
+LONG_FORMS = [(b"/", b"a", b"", len("socket path too long: ") + 1, "unix_path"),
+              (b"[127.0.0.1]:", b"9", b"", len("Invalid port number: "), "bad_port"),
+              (b"[127.0.0.1]:8", b" ", b"x", len("Invalid port number: ") + 2, "bad_port_trailing"),
+              (b"[", b"x", b"]:80", len("Error parsing IP address: "), "bad_v4_literal"),
+              (b"[:", b"f", b"]:80", len("Error parsing IP address: ") + 1, "bad_v6_literal"),
+              (b"[", b"1", b":80", len("Invalid [IP address]: ") + 1, "stray_bracket"),
+              (b"[", b"x", b"]", len("Address must contain port number: ") + 2, "missing_port")]
+
+
+def gen_resolve_long(ctx):
+    """Rejected addresses whose warning text is about as long as warnp's syslog line buffer
+    (WARNP_SYSLOG_MAX_LINE, 4095 characters + NUL): message lengths 4000..4200 (every length
+    4080..4112, steps of 8 elsewhere), and addresses of 8192 and 70000 bytes, for every rejection
+    message that quotes its input.  All are rejected ("fail")."""
+    msg_lens = sorted(set(range(4000, 4201, 8)) | set(range(4080, 4113)))
+    out = []
+    for pre, fill, suf, fixed, name in LONG_FORMS:
+        for m in msg_lens:
+            out.append(pre + fill * (m - fixed) + suf)
+            ctx.count("sock.resolve.long.%s" % name)
+        for total in (8192, 70000):
+            out.append(pre + fill * (total - len(pre) - len(suf)) + suf)
+            ctx.count("sock.resolve.long.%s" % name)
+    return out
+
+
+# sock_addr_deserialize accepts any family with any name; sock_addr_prettyprint on AF_UNIX does
+# strdup(name->sun_path) without consulting namelen.  These serialised addresses (family AF_UNIX,
+# name without a NUL inside the block, or shorter than the sun_path offset) are the one place where
+# the decoder's output, handed to the printer, is read past its block.  Probed one process per
+# input; reported under one fixed signature so that it can be listed as a known finding.
+UNTERMINATED_UNIX = [struct.pack("=iiI", AF_UNIX, SOCK_STREAM, 6) + struct.pack("=H", AF_UNIX) + b"/bcd",
+                     struct.pack("=iiI", AF_UNIX, SOCK_STREAM, 2) + struct.pack("=H", AF_UNIX),
+                     struct.pack("=iiI", AF_UNIX, SOCK_STREAM, 110) + struct.pack("=H", AF_UNIX) + b"/" + b"p" * 107]
+
+
+def probe_unterminated_unix(ctx, sub):
+    exe, mexe = build(ctx, sub)
+    if not exe:
+        return
+    cases = ["deserpp " + hx(b) for b in UNTERMINATED_UNIX]
+    model, _ = vlib.run_sharded(mexe, cases)
+    for c, m in zip(cases, model):
+        out, st = vlib.run_sharded(exe, [c], shards=1, env=ASAN_ENV)
+        rc, err = st[0]
+        ctx.count("sock.probe.unterminated_unix")
+        rep = re.search(r"ERROR: AddressSanitizer: ([a-z-]+)[^\n]*\n(READ|WRITE) of size (\d+)", err)
+        if rep or rc != 0 or out[0].startswith("<no-output"):
+            ctx.fail(sub, "property", c,
+                     "sock_addr_prettyprint(sock_addr_deserialize(buf)) reads past the name block: AF_UNIX name without "
+                     "a NUL inside its namelen bytes, prettyprint_unix strdup()s sun_path ignoring namelen (%s; model=%s)"
+                     % ("ASan %s, %s of size %s" % rep.groups() if rep else "rc=%d" % rc, m),
+                     property_fails=True, signature="sock.prettyprint-unix-unterminated")
+        else:
+            ctx.count("sock.probe.unterminated_unix.no_report")
+    ctx.record(sub + "-probe", cases, set(cases),
+               "probe: serialised AF_UNIX addresses whose name has no NUL inside the block, decoded and handed to "
+               "sock_addr_prettyprint, one process each under ASan (the model faults on them)")
+
+
 def check_sock_safety(ctx):
     n = ctx.n(1500, 40000)
     cases, py = [], []
@@ -538,6 +642,9 @@ def check_sock_safety(ctx):
         py.append(None)
         cases.append("ensure " + hx(s))
         py.append(None)
+    for s in gen_resolve_long(ctx):
+        cases.append("resolve " + hx(s))
+        py.append("fail")
     for s, want in gen_resolve_valid(ctx, n // 2):
         cases.append("resolve " + hx(s))
         py.append(want)
@@ -552,15 +659,26 @@ def check_sock_safety(ctx):
         fam, typ, nm = rand_sa(ctx)
         cases.append("pp %d %d %s" % (fam, typ, hx(nm)))
         py.append(None)
+        cases.append("deserpp " + hx(struct.pack("=III", fam & 0xffffffff, typ & 0xffffffff, len(nm)) + nm))
+        py.append(None)
     for fam in (AF_INET, AF_INET6):
         for ln in [0, 1, 2, 8, 15, 16, 17, 18, 24, 27, 28, 29, 30, 32, 48, 64, 110, 128, 300]:
             cases.append("pp %d %d %s" % (fam, SOCK_STREAM, hx(bytes(r.randrange(256) for _ in range(ln)))))
             py.append(None)
             ctx.count("sock.pp.namelen_sweep")
+    # shuffled so that the long addresses (slow in the model) are spread over the shards
+    order = list(range(len(cases)))
+    r.shuffle(order)
+    cases, py = [cases[i] for i in order], [py[i] for i in order]
     run_all(ctx, "sock-safety", cases, None, py,
             "sock_resolve / sock_addr_ensure_port on bracketed and Unix-path strings with stray brackets, colons, bad "
-            "ports, paths of 107..1000 bytes (exact strlen+1 allocations); sock_addr_deserialize on buffers with every "
-            "inconsistent namelen and every truncation (exact-size allocations), under ASan+UBSan, results against the model")
+            "ports, paths of 107..1000 bytes, and rejected addresses of 4000..4200, 8192 and 70000 bytes for every "
+            "rejection message that quotes its input (exact strlen+1 allocations); sock_addr_deserialize on buffers "
+            "with every inconsistent namelen and every truncation (exact-size allocations), decoded addresses handed "
+            "to sock_addr_prettyprint; under ASan+UBSan with the library's own util/warnp.c reporting to stderr, "
+            "results against the model",
+            real_warnp=True, syslog_verbs={"resolve"})
+    probe_unterminated_unix(ctx, "sock-safety")
 
 
 # --------------------------------------------------------------------------------------------
